@@ -475,7 +475,9 @@ Definition estep (fuel : nat) (n eid : nat) (o : op) (e : engine) (h : store) : 
       let d := mkdb (facts (edb e)) (fold_left (load_one overwrite) script (ctx (edb e))) (reserved (edb e)) (nfid (edb e)) in
       (with_db e d, h, otag "ok" [])
   | OClear =>
-      (mkeng [] (natom e) (mkdb [] builtin_ctx (reserved (edb e)) (nfid (edb e))) (cursors e) (nstart e), h, otag "ok" [])
+      (* clear(): new tables; ATOM_NIL = atom("[]") of the new atom table (/repo 326f202) *)
+      (mkeng [(of_string "[]", natom e)] (S (natom e)) (mkdb [] builtin_ctx (reserved (edb e)) (nfid (edb e))) (cursors e) (nstart e),
+       h, otag "ok" [])
   | OStart q nm args =>
       let h1 := match aget Nat.eqb q (cursors e) with Some c => snd (cclose h c) | None => h end in
       let c := cstart (nstart e) nm (map u args) in
